@@ -83,7 +83,31 @@ func c12Scenarios(level int) []c12Scenario {
 	// YAML input with many keys
 	yml := "$id: https://example.com/y\ntype: object\nproperties:\n  one: {type: string}\n  two: {type: integer}\n  three:\n    type: object\n    properties:\n      k1: {type: string}\n      k2: {type: boolean}\n      k3: {type: number}\nrequired: [one, two]\ndefinitions:\n  D1: {type: object, properties: {a: {type: string}}}\n  D2: {type: object, properties: {b: {type: string}}}\n"
 	sc = append(sc, c12Scenario{"yaml", []genlab.File{{Path: "s.yaml", Content: yml}}, []string{"s.yaml"}, genlab.Cfg{Package: "s", ResolveExt: []string{".yaml"}}})
+	// the multi-file universes of C20 (reference graphs, directory layouts, one definition name / one reference text in several
+	// documents) under its package / output mappings: every map the generator keeps per run (outputs, loaded schemas, declared
+	// names) is populated from several documents here
+	for _, u := range c20Universes(level) {
+		for _, mp := range c20Mappings(level) {
+			if level == 0 && mp.name != "two-packages" && mp.name != "own-files+root-type+unmapped" {
+				continue
+			}
+			var args []string
+			for _, f := range u.files {
+				args = append(args, f.Path)
+			}
+			sc = append(sc, c12Scenario{"universe/" + u.name + "/" + mp.name, u.files, args, mp.cfg(u.ids)})
+		}
+	}
 	if level >= 1 {
+		// names that collide after normalisation, in every equality pattern of their contents
+		for _, c := range collisionTriples("C12", func(i int) J {
+			return J{"type": "object", "properties": J{"v": J{"type": "string", "minLength": i + 1}}, "required": A{"v"}}
+		}, true) {
+			sc = append(sc, c12Scenario{c.ID, []genlab.File{{Path: "s.json", Content: space.Text(c.Schema)}}, []string{"s.json"}, genlab.Cfg{Package: "s", ResolveExt: []string{".json"}}})
+		}
+		for _, c := range sameNamePairs("C12") {
+			sc = append(sc, c12Scenario{c.ID, []genlab.File{{Path: "s.json", Content: space.Text(c.Schema)}}, []string{"s.json"}, genlab.Cfg{Package: "s", ResolveExt: []string{".json"}}})
+		}
 		for i, b := range c13Bases(0) {
 			s := space.Clone(b.Schema)
 			sc = append(sc, c12Scenario{fmt.Sprintf("base%02d/%s", i, b.ID), []genlab.File{{Path: "s.json", Content: space.Text(s)}}, []string{"s.json"}, genlab.Cfg{Package: "s", ResolveExt: []string{".json"}, ExtraImports: i%2 == 0}})
